@@ -120,6 +120,8 @@ namespace tt {
     char out;         // kind of the output
     std::string hyp;  // Coq hypothesis over the inputs a b c ... ("" if none), e.g. "det2 (full_t N a) <> 0"
     int tier;         // 0: quick and thorough, 1: thorough only
+    bool proof;       // false: "execution only" -- traced, compared with the double instantiation and with the numerical
+                      // specification on the seeded inputs, but NO Coq obligation is generated (listed as not proved)
     std::function<V<Sym>(const In<Sym>&)> fs;
     std::function<V<double>(const In<double>&)> fd;
   };
@@ -128,8 +130,9 @@ namespace tt {
     return o;
   }
   template <typename F>
-  void reg(const std::string& name, int N, const std::string& in, char out, F f, int tier = 0, const std::string& hyp = "") {
-    ops().push_back({name, N, in, out, hyp, tier, [f](const In<Sym>& i) { return f(i); }, [f](const In<double>& i) { return f(i); }});
+  void reg(const std::string& name, int N, const std::string& in, char out, F f, int tier = 0, const std::string& hyp = "",
+           bool proof = true) {
+    ops().push_back({name, N, in, out, hyp, tier, proof, [f](const In<Sym>& i) { return f(i); }, [f](const In<double>& i) { return f(i); }});
   }
 
   inline std::string subst_N(std::string s, int N) {
@@ -172,6 +175,7 @@ namespace tt {
       std::vector<int> roots{symv::node_of(outs[i])};
       const std::string lets = p.lets(roots);
       o << "Definition " << nm << "_c" << i << binder << " : R :=\n" << lets << "  " << p.expr(roots[0]) << ".\n";
+      if (!op.proof) continue;
       o << "Lemma " << nm << "_c" << i << "_ok :";
       if (!op.in.empty()) o << " forall " << ls << ",";
       o << hyp << "\n  " << nm << "_c" << i << args << " = nth " << i << " (" << spec << ") 0.\n";
@@ -180,6 +184,10 @@ namespace tt {
     o << "Definition " << nm << binder << " : list R :=\n  [";
     for (size_t i = 0; i < outs.size(); ++i) o << (i ? "; " : "") << nm << "_c" << i << args;
     o << "].\n";
+    if (!op.proof) {
+      o << "(* " << nm << ": execution only, no obligation generated (not proved) *)\n\n";
+      return;
+    }
     o << "Lemma " << nm << "_ok :";
     if (!op.in.empty()) o << " forall " << ls << ",";
     o << hyp << "\n  " << nm << args << " = " << spec << ".\n";
@@ -215,7 +223,10 @@ namespace tt {
   // main of every tracer:  gen <out.v> <part>/<nparts> <tier> <nsamples> <seed> | list
   inline int tracer_main(int argc, char** argv, const char* header) {
     if (argc >= 2 && !std::strcmp(argv[1], "list")) {
-      for (auto& op : ops()) std::printf("OP %s %d %s %c %d %s\n", op.name.c_str(), op.N, op.in.empty() ? "-" : op.in.c_str(), op.out, op.tier, op.hyp.c_str());
+      // tier column: +10 for the "execution only" operations (never part of a Properties file)
+      for (auto& op : ops())
+        std::printf("OP %s %d %s %c %d %s\n", op.name.c_str(), op.N, op.in.empty() ? "-" : op.in.c_str(), op.out,
+                    op.tier + (op.proof ? 0 : 10), op.hyp.c_str());
       return 0;
     }
     if (argc >= 7 && !std::strcmp(argv[1], "gen")) {
@@ -242,7 +253,7 @@ namespace tt {
           continue;
         }
         emit(o, op, outs);
-        std::printf("TRACED %s_%d %zu\n", op.name.c_str(), op.N, outs.size());
+        std::printf("%s %s_%d %zu\n", op.proof ? "TRACED" : "TRACED-EXEC-ONLY", op.name.c_str(), op.N, outs.size());
         // Sym-vs-double agreement, and the values of the real code for the independent numerical specification
         for (int s = 0; s < ns; ++s) {
           const auto din = num_inputs(op, rng, s % 3);
